@@ -139,6 +139,9 @@ func (s istate) set(id int, v ival, full ival) istate {
 type ienv struct {
 	num   *valueNumbering
 	sizes types.Sizes
+	// loadBound gives an invariant interval for a load from memory (field
+	// invariants established by a pre-pass), if any.
+	loadBound func(ld *ssa.UnOp) (ival, bool)
 }
 
 func constIval(v ssa.Value) (ival, bool) {
@@ -174,6 +177,12 @@ func (e *ienv) get(s istate, v ssa.Value) (ival, bool) {
 		}
 	}
 	switch x := v.(type) {
+	case *ssa.UnOp:
+		if x.Op == token.MUL && e.loadBound != nil {
+			if iv, ok := e.loadBound(x); ok {
+				return iv, true
+			}
+		}
 	case *ssa.Call:
 		if b, ok := x.Common().Value.(*ssa.Builtin); ok && (b.Name() == "len" || b.Name() == "cap") {
 			hi := full.hi
